@@ -5,6 +5,7 @@ import Nuts.Model.ListDS
 import Nuts.Spec.RList
 import NutsProofs.Lemmas.LRem
 import NutsProofs.Lemmas.Isolation
+import NutsProofs.Facts
 namespace NutsProofs.C05
 open Nuts Nuts.Model Nuts.Spec
 
@@ -334,5 +335,10 @@ theorem C05_push_pop_record_is_redis (l : ListDS.St) (r : Rec) (k' : Bytes)
       cases hl : (listOf l r.key).getLast? with
       | none => rw [hl] at hs; simp only at hs; rw [hs]
       | some x => rw [hl] at hs; simp only at hs; exact other _ hs.2.2 hk
+
+/-- **regenerated tie.** On this run, the list calls of the transactional API (validation against the committed list, the key / value encoding of `LSet`, `LRem`, `LTrim`, the flag of each queued record) are the source lines `Nuts.Model.Tx` was written from
+(`NutsProofs.Facts.expectedTxApiStmts`). -/
+theorem C05_tx_api_regenerated : NutsGen.F.txApiStmts = NutsProofs.Facts.expectedTxApiStmts :=
+  NutsProofs.Facts.tx_api_ok
 
 end NutsProofs.C05
